@@ -149,7 +149,7 @@ type SrvCfg struct {
 	ReadTimeout    time.Duration
 	WriteTimeout   time.Duration
 	LogLevel       hclog.Level
-	LogText        bool // hclog's text format instead of JSON lines
+	LogText        bool         // hclog's text format instead of JSON lines
 	OnClose        func(id int) // harness callback, called inside OnClose
 	NoOnClose      bool
 	Addr           string // default 127.0.0.1:0-ish (we pick a free port)
